@@ -168,6 +168,26 @@ def loop_var_swaps(src: str, lo: int, hi: int):
     yield from walk(tree, [])
 
 
+def loop_exit_mutations(src: str, lo: int, hi: int):
+    """Third family: a for loop that handles only some of its elements - `break` appended to the body (first element
+    only), and `continue` for every element but the first inserted at the top of the body."""
+    tree = ast.parse(src)
+    lines = src.splitlines(keepends=True)
+    for n in ast.walk(tree):
+        if not isinstance(n, ast.For) or not (lo <= n.lineno <= hi) or n.orelse:
+            continue
+        first, last = n.body[0], n.body[-1]
+        ind = " " * first.col_offset
+        if not isinstance(last, (ast.Break, ast.Continue, ast.Return, ast.Raise)):
+            out = lines[:last.end_lineno] + [ind + "break\n"] + lines[last.end_lineno:]
+            yield n.lineno, "loop-break", "".join(out)
+        it = ast.get_source_segment(src, n.iter)
+        tg = ast.get_source_segment(src, n.target)
+        if isinstance(n.target, ast.Name) and it and "\n" not in it:
+            out = lines[:first.lineno - 1] + [ind + f"if {tg} is not next(iter({it}), None):\n", ind + "    continue\n"] + lines[first.lineno - 1:]
+            yield n.lineno, "loop-skip-rest", "".join(out)
+
+
 def job(args):
     rel, ln, op, src, packs = args
     from tsa.driver import outcome
@@ -203,7 +223,7 @@ def main():
     for rel in args:
         src = open(os.path.join("/repo", rel)).read()
         packs = packs_reading(rel)
-        muts = list(mutations(src, lo, hi)) + list(loop_var_swaps(src, lo, hi))
+        muts = list(mutations(src, lo, hi)) + list(loop_var_swaps(src, lo, hi)) + list(loop_exit_mutations(src, lo, hi))
         for k, a in enumerate(sys.argv):
             if a == "--ops":
                 want = sys.argv[k + 1].split(",")
